@@ -32,6 +32,7 @@ DROPPED = ["visibility qualifiers (pub, pub(crate), pub(super))",
            "where a unit says lit_rule: a string literal turned into a String (`\"X\".to_string()`, `String::from(\"X\")`, with colour calls in between) becomes `lit(<hash of X>)`; contracts name the label as @LIT(X)@",
            "where a unit says loops: loop invariants are attached to the n-th loop header of the item (by position, the header text is the code's); anchor_re: the start of an item given as a regular expression",
            "a statement `if COND { continue; }` directly in a loop body becomes `if COND { } else { <rest of the body> }` (Verus takes no `continue` in a `for`)",
+           "where a unit says inline: the statement `self.<helper>(args);` is replaced by `{ let (params) = (args); <helper body> }`, parameters as the code declares them",
            "where a unit says pub_fields: every field of an extracted struct is made `pub`",
            "where a unit says foreach_rule: a statement `<it>.for_each(|<pat>| { <body> });` is rewritten to `for <pat> in <it> { <body> }` (the definition of Iterator::for_each; Verus takes no closure capturing `&mut` state)",
            "where a unit says closure_contracts: the parameter list of a named closure is replaced by an annotated one (types, named result, requires/ensures) and its body, untouched, is wrapped in braces (Verus does not infer closure postconditions)",
@@ -287,7 +288,15 @@ def annotate_loops(item, specs, key):
             m = re.match(r"for\s+(.+?)\s+in\s+", header, re.S)
             if m:
                 header = header[:m.end()] + sp["name"] + ": " + header[m.end():]
-        item = item[:st] + header + "\n" + sp["text"] + "\n" + item[br:]
+        tail = item[br:]
+        if sp.get("body_suffix"):
+            # proof steps placed at the very end of the loop body (before its closing brace)
+            be = match_brace(tail, 0)
+            tail = tail[:be - 1] + "\n" + sp["body_suffix"] + "\n" + tail[be - 1:]
+        if sp.get("body_prefix"):
+            # ghost bindings / proof hints placed at the very start of the loop body (located by position as well)
+            tail = "{\n" + sp["body_prefix"] + "\n" + tail[1:]
+        item = item[:st] + header + "\n" + sp["text"] + "\n" + tail
     return item
 
 
@@ -347,6 +356,48 @@ def continue_rule(txt):
         rest = out[b1 + 1:i]
         out = out[:b0] + "{ } else {" + rest + "}\n" + out[i:]
         pos = b0 + 1
+
+
+def inline_calls(item, specs, key):
+    """Inline a private helper at its call site: the statement `self.<callee>(a1, .., an);` becomes
+    `{ let (p1, .., pn) = (a1, .., an); <callee body> }` with p1..pn the callee's parameter names as the code declares them
+    (a `&mut` parameter bound to a plain identifier is re-borrowed). The callee's text goes through the same rewrite rules
+    as the caller's; it must not `return` a value. The point: the helper is checked as the code it is, through the caller's
+    contract, whatever its parameter list looks like after a change - no separate contract that a signature change breaks."""
+    out = item
+    for sp in specs:
+        e2 = {"key": key + ":" + sp["callee"], "file": sp["file"], "anchor": sp["anchor"], "kind": "item"}
+        for k in ("msg_rule", "lit_rule", "row_rule", "foreach_rule"):
+            if sp.get(k):
+                e2[k] = sp[k]
+        ctext = extract_item(e2)
+        sig, body = split_sig(ctext)
+        m = re.search(r"fn\s+" + re.escape(sp["callee"]) + r"\s*(?:<[^>]*>)?\s*\(", sig)
+        if not m:
+            raise ExtractError(f"lost anchor: callee {sp['callee']} in {key}")
+        pe = _match_paren(sig, m.end() - 1) - 1
+        params = [p.strip() for p in _split_top(sig[m.end():pe]) if p.strip()]
+        params = [p for p in params if not re.match(r"&?\s*(mut\s+)?self\b", p)]
+        names = [p.split(":", 1)[0].strip() for p in params]
+        types = [p.split(":", 1)[1].strip() for p in params]
+        call = "self." + sp["callee"] + "("
+        if out.count(call) != 1:
+            raise ExtractError(f"lost anchor: call of {sp['callee']} in {key} (found {out.count(call)})")
+        k = out.index(call)
+        ae = _match_paren(out, k + len(call) - 1) - 1
+        args = [a.strip() for a in _split_top(out[k + len(call):ae]) if a.strip()]
+        if len(args) != len(names):
+            raise ExtractError(f"call of {sp['callee']} in {key}: {len(args)} arguments for {len(names)} parameters")
+        rb = set(sp.get("reborrow_mut", []))
+        args = [("&mut *" + a) if (a in rb or (t.startswith("&mut") and re.fullmatch(r"\w+", a))) else a for a, t in zip(args, types)]
+        end = ae + 1
+        if out[end:end + 1] == ";":
+            end += 1
+        b0 = body.index("{")
+        inner = body[b0 + 1:body.rindex("}")]
+        repl = "{ let (" + ", ".join(names) + ") = (" + ", ".join(args) + ");\n// ---- inlined body of " + sp["callee"] + "\n" + inner + "\n}"
+        out = out[:k] + repl + out[end:]
+    return out
 
 
 def _match_paren(text, i):
@@ -651,6 +702,8 @@ def extract_item(e, vac=False):
     end = match_brace(t, s)
     item = t[s:end]
     item = rewrite(item, e.get("keep_pub", False))
+    if e.get("inline"):
+        item = inline_calls(item, e["inline"], e["key"])
     if e.get("foreach_rule"):
         item = foreach_rule(item)
     if "continue;" in item:
@@ -707,6 +760,10 @@ def extract_item(e, vac=False):
                 sig = sig[:m.start()] + "-> " + e["ret"] + " "
             else:
                 sig = sig.rstrip() + " -> " + e["ret"] + " "
+        if e.get("fn_prefix") and body.lstrip().startswith("{"):
+            # ghost bindings / proof hints at the very start of the function body (no text anchor needed)
+            k = body.index("{")
+            body = body[:k + 1] + "\n" + e["fn_prefix"] + "\n" + body[k + 1:]
         if vac and body.lstrip().startswith("{"):
             k = body.index("{")
             body = body[:k + 1] + " assert(false); // @VACUITY " + e["key"] + "\n" + body[k + 1:]
